@@ -502,6 +502,8 @@ class World:
             return ctx
         if isinstance(ctx, VOpaque):
             return ctx
+        if isinstance(ctx, VDict) and getattr(ctx, "is_shelf", False):
+            return ctx
         raise OutOfSubset("with over %r" % (ctx,))
 
     def ctx_exit(self, eng, ctx):
@@ -886,6 +888,8 @@ class World:
             names = [c.name]
         elif isinstance(c, VFunc) and getattr(c, "ext", None) and str(c.ext).startswith("builtin:"):
             names = [c.ext[8:]]
+        elif isinstance(c, VFunc) and getattr(c, "ext", None):
+            names = [str(c.ext).split(".")[-1]]  # external class (e.g. email.header.Header): matched by name
         else:
             raise OutOfSubset("isinstance class arg %r" % (c,))
         res = []
@@ -900,6 +904,8 @@ class World:
             return v.cls == n
         if isinstance(v, VExc):
             return self.exc_isa(v.cls, n)
+        if isinstance(v, VOpaque) and v.tag == n:
+            return True
         if isinstance(v, VOpaque):
             if "classvar" in v.attrs:
                 # object whose class is symbolic among a finite set read from the AST
@@ -1093,8 +1099,9 @@ class World:
                 if not allowed:
                     eng.oblige("%s.raises-only-declared" % label, False, kind="raises", site=raised.site, note="%s escapes (raised at line %s); declared: %s" % (exc.cls, raised.site, sorted(c.raises)))
 
+        eng.salvage = not canary
         eng.run_all(body)
-        if not canary:
+        if not canary and not eng.incomplete:
             for key in c.opts.get("must_hit", ()):
                 if key not in eng.at_hits:
                     from .engine import VC
